@@ -1,0 +1,160 @@
+//! Seams for deterministic simulation (only compiled with the `verif` feature).
+//!
+//! Nothing in this module changes behaviour unless a simulator has installed
+//! hooks on the *current thread*; without hooks every function is a no-op or
+//! a plain call into `std`.
+
+use std::{cell::RefCell, path::Path, sync::Arc};
+
+use ironplc_dsl::diagnostic::{Diagnostic, Label};
+
+use crate::project::FileBackedProject;
+
+/// One label of a diagnostic as handed to `handle_diagnostics`.
+#[derive(Debug, Clone)]
+pub struct LabelRecord {
+    pub file: String,
+    pub start: usize,
+    pub end: usize,
+    pub message: String,
+    /// Length in bytes of the text the project holds for `file` (None when
+    /// the project does not hold the file or no project was given).
+    pub text_len: Option<usize>,
+    /// `start` and `end` are inside the text and on character boundaries.
+    pub on_char_boundary: Option<bool>,
+}
+
+/// One diagnostic as handed to `handle_diagnostics`.
+#[derive(Debug, Clone)]
+pub struct DiagnosticRecord {
+    pub code: String,
+    pub description: String,
+    pub primary: LabelRecord,
+    pub secondary: Vec<LabelRecord>,
+}
+
+/// What a simulator can observe and decide.
+pub trait Hooks: Send + Sync {
+    /// Called immediately before a file system call.
+    fn fs_point(&self, _op: &'static str, _path: &Path) {}
+    /// Returns the order in which the `n` entries of `dir` are delivered
+    /// (a permutation of `0..n`), or None to keep the order of the OS.
+    fn permute_dir(&self, _dir: &Path, _names: &[String]) -> Option<Vec<usize>> {
+        None
+    }
+    /// The diagnostics the command line is about to render.
+    fn diagnostics(&self, _with_project: bool, _records: Vec<DiagnosticRecord>) {}
+    /// A named point was reached.
+    fn probe(&self, _name: &'static str) {}
+    /// The order in which the project iterates its sources.
+    fn source_order(&self, _order: Vec<String>) {}
+}
+
+thread_local! {
+    static HOOKS: RefCell<Option<Arc<dyn Hooks>>> = const { RefCell::new(None) };
+}
+
+/// Installs (or with `None` removes) the hooks of the current thread.
+pub fn install(hooks: Option<Arc<dyn Hooks>>) {
+    HOOKS.with(|h| *h.borrow_mut() = hooks);
+}
+
+fn current() -> Option<Arc<dyn Hooks>> {
+    HOOKS.with(|h| h.borrow().clone())
+}
+
+pub fn fs_point(op: &'static str, path: &Path) {
+    if let Some(h) = current() {
+        h.fs_point(op, path);
+    }
+}
+
+pub fn probe(name: &'static str) {
+    if let Some(h) = current() {
+        h.probe(name);
+    }
+}
+
+pub fn source_order<'a>(keys: impl Iterator<Item = &'a ironplc_dsl::core::FileId>) {
+    if let Some(h) = current() {
+        h.source_order(keys.map(|k| k.to_string()).collect());
+    }
+}
+
+fn label_record(label: &Label, project: Option<&FileBackedProject>) -> LabelRecord {
+    let text = project
+        .and_then(|p| p.get(&label.file_id))
+        .map(|s| s.as_string());
+    LabelRecord {
+        file: label.file_id.to_string(),
+        start: label.location.start,
+        end: label.location.end,
+        message: label.message.clone(),
+        text_len: text.map(|t| t.len()),
+        on_char_boundary: text.map(|t| {
+            label.location.start <= label.location.end
+                && t.is_char_boundary(label.location.start)
+                && t.is_char_boundary(label.location.end)
+        }),
+    }
+}
+
+pub fn record_diagnostics(diagnostics: &[Diagnostic], project: Option<&FileBackedProject>) {
+    if let Some(h) = current() {
+        let records = diagnostics
+            .iter()
+            .map(|d| DiagnosticRecord {
+                code: d.code.clone(),
+                description: d.description(),
+                primary: label_record(&d.primary, project),
+                secondary: d
+                    .secondary
+                    .iter()
+                    .map(|l| label_record(l, project))
+                    .collect(),
+            })
+            .collect();
+        h.diagnostics(project.is_some(), records);
+    }
+}
+
+/// Stand-in for `std::fs` at the call sites that discover files.
+pub mod fs {
+    use std::{fs::DirEntry, io, path::Path};
+
+    /// `std::fs::read_dir`, except that a simulator may decide the order in
+    /// which the (real) entries are delivered.
+    pub fn read_dir<P: AsRef<Path>>(path: P) -> io::Result<std::vec::IntoIter<io::Result<DirEntry>>> {
+        super::fs_point("read_dir", path.as_ref());
+        let entries: Vec<io::Result<DirEntry>> = std::fs::read_dir(path.as_ref())?.collect();
+        let entries = match super::current() {
+            Some(h) => {
+                let names: Vec<String> = entries
+                    .iter()
+                    .map(|e| match e {
+                        Ok(e) => e.file_name().to_string_lossy().to_string(),
+                        Err(_) => String::new(),
+                    })
+                    .collect();
+                match h.permute_dir(path.as_ref(), &names) {
+                    Some(order) if order.len() == entries.len() => {
+                        let mut slots: Vec<Option<io::Result<DirEntry>>> =
+                            entries.into_iter().map(Some).collect();
+                        let mut out = Vec::with_capacity(slots.len());
+                        for i in order {
+                            if let Some(e) = slots.get_mut(i).and_then(|s| s.take()) {
+                                out.push(e);
+                            }
+                        }
+                        // Anything a faulty permutation left behind is kept.
+                        out.extend(slots.into_iter().flatten());
+                        out
+                    }
+                    _ => entries,
+                }
+            }
+            None => entries,
+        };
+        Ok(entries.into_iter())
+    }
+}
